@@ -31,6 +31,8 @@ struct World {
     items: V<std::string::String>,
     // generator-side memory (never printed): live_untils of all offers made so far
     lus: V<u32>,
+    // the constructor trapped: the trace consists of one impossible observation (flagged by diff and monitor)
+    dead: bool,
 }
 
 #[derive(Clone, Debug)]
@@ -39,7 +41,9 @@ enum Call { Offer(usize, u32, V<usize>), Accept(V<usize>), Renounce(V<usize>), G
 fn auths_s(a: &[usize]) -> std::string::String { list(&a.iter().map(|i| n(*i as u64)).collect::<V<_>>()) }
 
 impl World {
-    fn new(kind: Kind, naddr: usize, start: u32, min_ttl: u32, max_ttl: u32) -> World {
+    fn new(kind: Kind, naddr: usize, start: u32, min_ttl: u32, max_ttl: u32) -> World { World::new_cfg(kind, naddr, start, min_ttl, max_ttl, std::cmp::min(max_ttl, 4096)) }
+    /// min_persist: ledger info min_persistent_entry_ttl (lifetime of the contract instance / code entries in the test host)
+    fn new_cfg(kind: Kind, naddr: usize, start: u32, min_ttl: u32, max_ttl: u32, min_persist: u32) -> World {
         let e = Env::default();
         e.cost_estimate().budget().reset_unlimited();
         e.cost_estimate().disable_resource_limits();
@@ -47,34 +51,40 @@ impl World {
             l.sequence_number = start;
             l.min_temp_entry_ttl = min_ttl;
             l.max_entry_ttl = max_ttl;
-            l.min_persistent_entry_ttl = std::cmp::min(max_ttl, 4096);
+            l.min_persistent_entry_ttl = min_persist;
         });
         let addrs: V<Address> = (0..naddr).map(|_| Address::generate(&e)).collect();
-        let cid = match kind {
+        let reg = std::panic::catch_unwind(std::panic::AssertUnwindSafe(|| match kind {
             Kind::Own => e.register(ownable_ex::ExampleContract, (addrs[0].clone(),)),
             Kind::AC => e.register(
                 ac_ex::ExampleContract,
                 (String::from_str(&e, "u"), String::from_str(&e, "n"), String::from_str(&e, "s"), addrs[0].clone()),
             ),
-        };
-        World { e, kind, cid, addrs, now: start, start, min_ttl, max_ttl, items: vec![], lus: vec![] }
+        }));
+        match reg {
+            Ok(cid) => World { e, kind, cid, addrs, now: start, start, min_ttl, max_ttl, items: vec![], lus: vec![], dead: false },
+            Err(_) => { let e = Env::default(); let cid = Address::generate(&e); World { e, kind, cid, addrs: vec![], now: start, start, min_ttl, max_ttl, items: vec![], lus: vec![], dead: true } }
+        }
     }
     fn header(&self) -> std::string::String {
         format!("(Build_header {} {} {} {} (Some {}))", if self.kind == Kind::Own { "Own" } else { "AC" }, self.min_ttl, self.max_ttl, self.start, n(0))
     }
-    fn idx(&self, a: &Address) -> u64 { self.addrs.iter().position(|x| x == a).expect("unknown address") as u64 }
+    fn idx(&self, a: &Address) -> u64 { self.addrs.iter().position(|x| x == a).unwrap_or(999) as u64 }
+    /// the public getter; a trapping getter becomes the sentinel Some(998) (never an abort)
     fn holder(&self) -> Option<usize> {
+        if self.dead { return None; }
         let h = match self.kind {
-            Kind::Own => ownable_ex::ExampleContractClient::new(&self.e, &self.cid).get_owner(),
-            Kind::AC => ac_ex::ExampleContractClient::new(&self.e, &self.cid).get_admin(),
+            Kind::Own => match ownable_ex::ExampleContractClient::new(&self.e, &self.cid).try_get_owner() { Ok(Ok(h)) => h, _ => return Some(998) },
+            Kind::AC => match ac_ex::ExampleContractClient::new(&self.e, &self.cid).try_get_admin() { Ok(Ok(h)) => h, _ => return Some(998) },
         };
         h.map(|a| self.idx(&a) as usize)
     }
     /// test-only look at the pending entry: (address, live_until) if live
     fn pending(&self) -> Option<(usize, u32)> {
+        if self.dead { return None; }
         let e = &self.e;
         let kind = self.kind;
-        let r: Option<(Address, u32)> = e.as_contract(&self.cid, || match kind {
+        let r: Option<(Address, u32)> = std::panic::catch_unwind(std::panic::AssertUnwindSafe(|| e.as_contract(&self.cid, || match kind {
             Kind::Own => {
                 let k = OwnableStorageKey::PendingOwner;
                 e.storage().temporary().get::<_, Address>(&k).map(|a| (a, e.storage().temporary().get_ttl(&k)))
@@ -83,7 +93,7 @@ impl World {
                 let k = AccessControlStorageKey::PendingAdmin;
                 e.storage().temporary().get::<_, Address>(&k).map(|a| (a, e.storage().temporary().get_ttl(&k)))
             }
-        });
+        }))).unwrap_or(None);
         r.map(|(a, ttl)| (self.idx(&a) as usize, self.now + ttl))
     }
     fn obs(&self) -> std::string::String {
@@ -98,6 +108,7 @@ impl World {
     }
     /// executes one call on the real contract, appends (call, outcome, observation)
     fn exec(&mut self, out: &mut Out, c: &Call) -> bool {
+        if self.dead { return false; }
         let e = self.e.clone();
         let (text, res, label): (std::string::String, Option<i128>, &str) = match c {
             Call::Offer(new, lu, au) => {
@@ -138,6 +149,7 @@ impl World {
                 self.now += *k;
                 let nw = self.now;
                 e.ledger().with_mut(|l| l.sequence_number = nw);
+                if *k >= 17281 { out.label("advance-long/ok"); }
                 (format!("Advance {}", n(*k as u64)), Some(0), "advance")
             }
         };
@@ -147,7 +159,8 @@ impl World {
         self.items.push(format!("({}, {}, {})", text, outs, self.obs()));
         res.is_some()
     }
-    fn flush(self, out: &mut Out, desc: &str) {
+    fn flush(mut self, out: &mut Out, desc: &str) {
+        if self.dead { out.label("constructor/trap"); self.items = vec!["(Advance 0%N, Fail, (Some 998%N, None))".to_string()]; }
         let nn = self.items.len();
         let term = format!("(({}, {}) : trace)", self.header(), list(&self.items));
         out.trace(desc, term, nn);
@@ -170,11 +183,13 @@ fn pick_auths(rng: &mut Rng, principal: Option<usize>, alt: Option<usize>, naddr
 /// one adaptive random trace
 fn random_trace(out: &mut Out, rng: &mut Rng, kind: Kind, len: usize, desc: &str) {
     let naddr = 4usize;
-    let (min_ttl, max_ttl) = match rng.below(10) { 0 | 1 => (1u32, 40u32), 2 => (16, 5000), 3 => (1, 300), _ => (1, 5000) };
+    // host configurations: tiny / small max_entry_ttl, min_temp_entry_ttl 16, the test host's defaults, everything long-lived
+    let (min_ttl, max_ttl, min_persist) = match rng.below(12) { 0 | 1 => (1u32, 40u32, 40u32), 2 => (16, 5000, 4096), 3 => (1, 300, 300), 4 | 5 => (1, 6_312_000, 4096), 6 => (16, 8_000_000, 7_999_999), _ => (1, 5000, 4096) };
     let start = 100 + rng.below(50) as u32;
-    let mut w = World::new(kind, naddr, start, min_ttl, max_ttl);
+    let mut w = World::new_cfg(kind, naddr, start, min_ttl, max_ttl, min_persist);
     let mut last_lu: Option<u32> = None;
     for step in 0..len {
+        if w.dead { break; }
         let holder = w.holder();
         let pend = w.pending();
         let pa = pend.map(|p| p.0);
@@ -221,8 +236,10 @@ fn random_trace(out: &mut Out, rng: &mut Rng, kind: Kind, len: usize, desc: &str
             if let Some(l) = last_lu { for d in [-1i64, 0, 1] { targets.push(l as i64 + d); } }
             if let Some((_, l)) = pend { for d in [-1i64, 0, 1] { targets.push(l as i64 + d); } targets.push((now as i64 + l as i64) / 2); }
             for l in w.lus.iter().rev().take(4) { targets.push(*l as i64); targets.push(*l as i64 + 1); }
-            targets.retain(|t| *t >= now as i64 && *t <= now as i64 + 6000);
-            let k = if !targets.is_empty() && rng.chance(3, 4) { (*rng.pick(&targets) - now as i64) as u32 } else { rng.below(4) as u32 };
+            targets.retain(|t| *t >= now as i64 && *t <= now as i64 + 7_000_000);
+            // besides the boundaries: very long gaps in ONE step (the holder must not lapse, the offer must)
+            let k = if rng.chance(1, 7) { *rng.pick(&[20u32, 100, 17281, 20000, 600000, 4_000_000]) }
+                    else if !targets.is_empty() && rng.chance(3, 4) { (*rng.pick(&targets) - now as i64) as u32 } else { rng.below(4) as u32 };
             Call::Advance(k)
         };
         // classification labels for the coverage gate (generator side only)
@@ -281,6 +298,14 @@ fn main() {
         scripted(&mut out, kind, 100, 16, 5000, &[Offer(1, 101, vec![0]), Advance(15), Renounce(vec![0]), Advance(1), Accept(vec![1]), Renounce(vec![0])], "corpus/min-ttl-16");
         // offer expires, a later offer starts afresh (no F2 window)
         scripted(&mut out, kind, 100, 1, 5000, &[Offer(1, 110, vec![0]), Advance(11), Offer(2, 120, vec![0]), Advance(9), Accept(vec![1]), Advance(1), Accept(vec![2])], "corpus/expired-then-fresh");
+    }
+    for kind in [Kind::Own, Kind::AC] {
+        for (maxt, minp) in [(6_312_000u32, 4096u32), (8_000_000, 7_999_999)] {
+            let mut w = World::new_cfg(kind, 4, 100, 1, maxt, minp);
+            for c in [Guarded(vec![0]), Offer(1, 2_000_000, vec![0]), Advance(17281), Guarded(vec![0]), Advance(600_000), Accept(vec![1]), Guarded(vec![1]), Guarded(vec![0]),
+                      Offer(2, 3_000_000, vec![1]), Advance(4_000_000), Guarded(vec![1]), Accept(vec![2]), Offer(2, 4_700_000, vec![1]), Advance(20_000), Accept(vec![2]), Advance(4_000_000), Guarded(vec![2]), Renounce(vec![2]), Advance(4_000_000), Guarded(vec![2])] { w.exec(&mut out, &c); }
+            w.flush(&mut out, "corpus/long-gaps");
+        }
     }
     let ntr = (if thorough { 2400 } else { 400 }) * out.cfg.scale as usize;
     for i in 0..ntr {
